@@ -147,6 +147,12 @@ func c12Gen(r *rng.Rand, i int, tier string) interface{} {
 				}
 			} else {
 				t = fxEdgeTime(r, tfs, y)
+				if r.Chance(30) { // sparse rows within the first ~2 read chunks after the start of the year (backward-scan edge)
+					t = fxJan1(y) + tfs*r.Range(0, 17000)
+					if t >= fxJan1(y+1) {
+						t = fxJan1(y) + tfs*r.Range(0, 300)
+					}
+				}
 				if tfs == 86400 && time.Unix(t, 0).UTC().YearDay() == 1 {
 					t += 86400
 				}
@@ -232,7 +238,14 @@ func c12Gen(r *rng.Rand, i int, tier string) interface{} {
 	}
 	for k := 0; k < nq; k++ {
 		q := c12Q{ReqTF: in.TF, N: pickN(), FromStart: r.Bool()}
-		switch r.Intn(5) {
+		if k == 0 { // every case: the last total+1 rows of all time (the backward scan walks every chunk of every file)
+			q.FromStart, q.N = false, total+1
+		}
+		rk := r.Intn(5)
+		if k == 0 {
+			rk = 0
+		}
+		switch rk {
 		case 0, 1: // all time
 			q.S, q.EMax = 0, true
 		case 2: // bounded both sides
@@ -254,7 +267,7 @@ func c12Gen(r *rng.Rand, i int, tier string) interface{} {
 		if q.E < 0 {
 			q.E, q.ENs = 0, 0
 		}
-		if r.Chance(6) { // a non-queryable request timeframe: the limit is scaled by QueryableNrecords
+		if r.Chance(6) && k != 0 { // a non-queryable request timeframe: the limit is scaled by QueryableNrecords
 			switch in.TF {
 			case "1Min":
 				q.ReqTF = []string{"2Min", "3Min", "60Sec"}[r.Intn(3)]
@@ -268,7 +281,7 @@ func c12Gen(r *rng.Rand, i int, tier string) interface{} {
 				q.ReqTF = "5Sec"
 			}
 		}
-		if r.Chance(8) {
+		if r.Chance(8) && k != 0 {
 			q.N = 0
 		}
 		in.Qs = append(in.Qs, q)
